@@ -220,6 +220,81 @@ func execute(lines []string, drv *hx.Driver, seed uint64) (res outcome) {
 				res.monitor = abbreviate(line) + " changed the Content Addressable Storage"
 				return
 			}
+		case "race3": // race3 <D> <E> <T> p... : lookup parked on a lazily loaded directory while it is replaced
+			if len(w) < 4 {
+				continue
+			}
+			names, ok1 := decodeComps(w[1:4])
+			pp, ok2 := decodeComps(w[4:])
+			if !ok1 || !ok2 {
+				continue
+			}
+			valid := names[0] != names[1]
+			for _, c := range append(append([]string(nil), names...), pp...) {
+				valid = valid && refValidName(c)
+			}
+			if !valid {
+				continue
+			}
+			parent, st := ref.walk(pp)
+			if st != "" {
+				continue
+			}
+			nd, okd := parent.children[names[0]]
+			ne, oke := parent.children[names[1]]
+			_, okt := parent.children[names[2]]
+			if !okd || !oke || okt || nd.kind != "dir" || ne.kind != "dir" || nd.hash == "" || (nd.hash == ne.hash && nd.size == ne.size) {
+				continue
+			}
+			for k := range r.cas.failing {
+				delete(r.cas.failing, k)
+			}
+			r.injected, r.cas.injected = 0, 0
+			rr := r.race3(pp, names[0], names[1], names[2], casKeyOf(nd.hash, nd.size))
+			if rr.stuck != "" {
+				res.flags["race3-not-driven"]++
+				res.invalid = true
+				return
+			}
+			res.steps += 5
+			res.flags["race3"]++
+			if rr.parked {
+				res.flags["race3-lookup-parked"]++
+			}
+			pathD := toks(append(append([]string(nil), pp...), names[0]))
+			two := func(a, b string) []string {
+				return append([]string{strconv.Itoa(len(pp) + 1)}, append(toks(append(append([]string(nil), pp...), a)), toks(append(append([]string(nil), pp...), b))...)...)
+			}
+			// sequential equivalent: T1, T3's two renames, T2, then listing what T2 got
+			seq := []struct {
+				op   string
+				args []string
+				got  string
+			}{
+				{"readdir", pathD, rr.t1},
+				{"rename", two(names[0], names[2]), rr.rn1},
+				{"rename", two(names[1], names[0]), rr.rn2},
+				{"lookup", pathD, rr.t2},
+				{"readdir", pathD, rr.t2Listing},
+			}
+			for i, q := range seq {
+				want := refExec(ref, r.cas.blobs, r.hashLen, q.op, q.args)
+				if strings.HasPrefix(q.got, "panic") {
+					res.monitor = fmt.Sprintf("%s: %s", abbreviate(line), q.got)
+				} else if i == 3 && rr.stale {
+					res.monitor = fmt.Sprintf("%s: a lookup that completed after the name was re-bound returned a directory that is no longer under that name (a detached one); its listing is %s, the directory under the name lists %s", abbreviate(line), clip(rr.t2Listing), clip(refExec(ref, r.cas.blobs, r.hashLen, "readdir", pathD)))
+				} else if q.got != want {
+					res.monitor = fmt.Sprintf("%s: step %d (%s) returned %q; the tree named by the root digest (with the local modifications so far) demands %q", abbreviate(line), i+1, q.op, clip(q.got), clip(want))
+				}
+				if res.monitor != "" {
+					return
+				}
+			}
+			for _, q := range seq {
+				if !ask(opLine(q.op, nil, q.args...), q.got) {
+					return
+				}
+			}
 		case "cwalk":
 			if len(w) != 3 {
 				continue
